@@ -217,6 +217,38 @@ func init() {
 		}
 		return "ok"
 	})
+	// metadata ATTACHMENT names (global, function, instruction): printed token and print->parse round trip
+	reg("enc.mdattach", func(a []string) string {
+		at := &metadata.Attachment{Name: string(unhexArg(a[0])), Node: &metadata.Tuple{MetadataID: 0}}
+		return hexOut([]byte(at.String()))
+	})
+	reg("rt.mdattach", func(a []string) string {
+		name := string(unhexArg(a[0]))
+		m := ir.NewModule()
+		t := &metadata.Tuple{MetadataID: -1}
+		m.MetadataDefs = append(m.MetadataDefs, t)
+		g := m.NewGlobalDef("g", constant.NewInt(types.I32, 0))
+		g.Metadata = append(g.Metadata, &metadata.Attachment{Name: name, Node: t})
+		f := m.NewFunc("f", types.Void)
+		f.Metadata = append(f.Metadata, &metadata.Attachment{Name: name, Node: t})
+		r := f.NewBlock("").NewRet(nil)
+		r.Metadata = append(r.Metadata, &metadata.Attachment{Name: name, Node: t})
+		m2, err := asm.ParseString("x.ll", m.String())
+		if err != nil {
+			return "FAIL error"
+		}
+		if len(m2.Globals) != 1 || len(m2.Globals[0].Metadata) != 1 || m2.Globals[0].Metadata[0].Name != name {
+			return "FAIL global"
+		}
+		if len(m2.Funcs) != 1 || len(m2.Funcs[0].Metadata) != 1 || m2.Funcs[0].Metadata[0].Name != name {
+			return "FAIL func"
+		}
+		tr := m2.Funcs[0].Blocks[0].Term.(*ir.TermRet)
+		if len(tr.Metadata) != 1 || tr.Metadata[0].Name != name {
+			return "FAIL inst"
+		}
+		return "ok"
+	})
 	reg("rt.string", func(a []string) string {
 		s := string(unhexArg(a[0]))
 		m := ir.NewModule()
